@@ -62,3 +62,12 @@ Proof. vm_compute. auto. Qed.
 From PV Require Import Mux.Burst.
 Theorem C08_burst_is_sequential : forall ms f, no_rx_error f ms -> deliver_all f ms = seq_deliver f ms.
 Proof. exact burst_is_sequential. Qed.
+
+(* the last clause of C08 ("a local drop still flushes") fails in one situation, on the model as on the code: the witness *)
+From PV Require Import Mux.DropFlush.
+Theorem C08_drop_flush_refuted_witness :
+  exists os, df_outs = Some os /\
+    nth_error (map o_res os) 8 = Some [0; 1] /\
+    nth_error (map o_done os) 9 = Some [1; 101] /\
+    flat_map o_b os = [MBin (encode (Acknowledge 5 4)); MBin (encode (Acknowledge 6 4)); MBin (encode (Acknowledge 7 4))].
+Proof. exact C08_drop_flush_refuted. Qed.
